@@ -120,6 +120,8 @@ class Loc:
         """node with single-definition locals inlined, except the names in `keep`."""
         loc = self
         kept = set(keep)
+        if '*' in kept:
+            return copy.deepcopy(node)
 
         class T(ast.NodeTransformer):
             def __init__(self, d: int) -> None:
@@ -261,4 +263,18 @@ def facts(loc: Loc, node: ast.AST, keep: Iterable[str] = ()) -> set[str]:
     """canonical guards under which `node` runs (syntactic guards with early exits, see flow.flat_guards)"""
     from .flow import flat_guards
 
-    return {canon_fact(loc, t, p, keep) for t, p in flat_guards(loc.fi.node, node)}
+    out: set[str] = set()
+
+    def split(t: ast.AST, pol: bool) -> None:
+        # decompose AFTER inlining the locals: `flag = a or b; if not flag:` gives `not a`, `not b`
+        while isinstance(t, ast.UnaryOp) and isinstance(t.op, ast.Not):
+            t, pol = t.operand, not pol
+        if isinstance(t, ast.BoolOp) and ((isinstance(t.op, ast.And) and pol) or (isinstance(t.op, ast.Or) and not pol)):
+            for v in t.values:
+                split(v, pol)
+            return
+        out.add(canon_fact(loc, t, pol, keep=['*']))
+
+    for t, p in flat_guards(loc.fi.node, node):
+        split(loc.expanded(t, keep=keep), p)
+    return out
